@@ -233,6 +233,24 @@ def strided_family():
                              "blocks": [{"id": 0, "kind": "CrossBlock", "design": [0, 1, 2], "crossing": crossing,
                                          "constraints": cs, "rcc": True}], "main": 0}
                         out.append(("strided-before-complex", p))
+    # the strided factor listed LAST among the encoded factors and not applying to the final trial: the
+    # first auxiliary variable must still come after ALL its variables (seed C14-fresh-from-last-trial)
+    for stride in (2, 3):
+        for start in (0, 1, None):
+            for width in (1, 2):
+                w = _window_factor(1, "w", f, width, stride, start)
+                t = _window_factor(2, "t", f, 2, 1, 1, wtype="transition")
+                for m in (4, 5, 6, 7):
+                    cons = [{"id": 0, "kind": "AtMostKInARow", "k": 2, "level": [1, "hit"]},
+                            {"id": 1, "kind": "MinimumTrials", "trials": m}]
+                    out.append(("strided-last", {
+                        "factors": [f, w, t], "constraints": cons,
+                        "blocks": [{"id": 0, "kind": "CrossBlock", "design": [0, 2, 1], "crossing": [0, 2],
+                                    "constraints": [0, 1], "rcc": True}], "main": 0}))
+                    out.append(("strided-only", {
+                        "factors": [f, w], "constraints": cons,
+                        "blocks": [{"id": 0, "kind": "CrossBlock", "design": [0, 1], "crossing": [0],
+                                    "constraints": [0, 1], "rcc": True}], "main": 0}))
     return out
 
 
